@@ -715,8 +715,16 @@ func (s *Store[K, V]) sinkWrite(item WriteBufItem[K, V]) {
 		// update entry policy weight
 		entry.policyWeight += item.costChange
 
+		// the new deadline may already have passed while the event was waiting in
+		// the queue: scheduling it would put the entry into a slot the wheel has
+		// left behind, where it would wait for a whole rotation
+		expired := false
 		if item.rechedule {
-			s.timerwheel.schedule(entry)
+			if expire := entry.expire.Load(); expire != 0 && expire <= s.timerwheel.clock.NowNano() {
+				expired = true
+			} else {
+				s.timerwheel.schedule(entry)
+			}
 		}
 
 		// create/update race
@@ -727,6 +735,9 @@ func (s *Store[K, V]) sinkWrite(item WriteBufItem[K, V]) {
 		if item.costChange != 0 {
 			// update policy weight
 			s.policy.UpdateCost(entry, item.costChange)
+		}
+		if expired && !entry.flag.IsRemoved() {
+			s.removeEntry(entry, EXPIRED)
 		}
 	}
 	item.entry = nil
